@@ -140,6 +140,7 @@ def compare_case(ops, crec, mrec):
     payload (both OK, different answers), dump (DUMP blocks differ), nzcount, missing"""
     diffs = []
     last_both_err = False
+    any_both_err = False        # a failed edit happened earlier: later divergences may be its residue (C07: phantom names ...)
     # record 0 is RESET
     for k, op in enumerate(ops):
         i = k + 1
@@ -154,7 +155,7 @@ def compare_case(ops, crec, mrec):
         if name in BLOCK_OPS:
             if sc == "BLOCK" and sm == "BLOCK":
                 if rec_payload(c) != rec_payload(m):
-                    diffs.append((k, "state-after-failed-call" if last_both_err else "dump", first_diff(rec_payload(c), rec_payload(m))))
+                    diffs.append((k, "state-after-failed-call" if (last_both_err or any_both_err) else "dump", first_diff(rec_payload(c), rec_payload(m))))
             elif sc != sm:
                 diffs.append((k, "dump", "C %s / model %s" % (sc, sm)))
             continue
@@ -163,8 +164,10 @@ def compare_case(ops, crec, mrec):
                 diffs.append((k, "skip", "C %s / model %s" % (" ".join(c[0]), " ".join(m[0]))))
             continue
         last_both_err = (sm == "ERR" and sc == "ERR")
+        if last_both_err and name != "Q":
+            any_both_err = True
         if sm == "OK" and sc == "ERR":
-            diffs.append((k, "valid-rejected", op))
+            diffs.append((k, "state-after-failed-call" if any_both_err else "valid-rejected", op))
         elif sm == "ERR" and sc == "OK":
             diffs.append((k, "invalid-accepted", op))
         elif sm == "OK" and sc == "OK":
@@ -173,7 +176,7 @@ def compare_case(ops, crec, mrec):
                 if op.split()[2:3] == ["counts"] and pc[:2] == pm[:2]:
                     diffs.append((k, "nzcount", "library %s, model %s" % (pc[2], pm[2])))
                 else:
-                    diffs.append((k, "payload", "library: %s | model: %s" % (" ".join(pc)[:300], " ".join(pm)[:300])))
+                    diffs.append((k, "state-after-failed-call" if any_both_err else "payload", "library: %s | model: %s" % (" ".join(pc)[:300], " ".join(pm)[:300])))
     return diffs
 
 
